@@ -222,117 +222,124 @@ inductive Out where
   | noTrack                    -- the request designates a track that is not in the pool (malformed)
 deriving DecidableEq, Repr
 
+/-- the value given for a name in a list of (name, value) pairs -/
+def lookVal (vals : List (String × Int)) (nm : String) : Option Int := (vals.find? (fun p => p.1 == nm)).map (·.2)
+
 /-- a new observation for a given track: its feature list follows the track's names (the harness builds
 the real `Obs.features` the same way, from `getListAnalyticalFeatures()`); `none` = a name has no value. -/
 def mkObs (tr : Track) (tag : Nat) (time : Int) (vals : List (String × Int)) : Option Obs :=
-  (tr.names.mapM (fun nm => (vals.find? (fun p => p.1 == nm)).map (·.2))).map (fun fs => ⟨tag, time, fs⟩)
+  if tr.names.all (fun nm => (lookVal vals nm).isSome) then
+    some ⟨tag, time, tr.names.map (fun nm => (lookVal vals nm).getD 0)⟩
+  else none
 
 def setAt {α : Type} (l : List α) (k : Nat) (x : α) : List α := l.set k x
 
+/-- an operator returning a new track: it is appended to the pool (`none` = the exception `err`) -/
+def newTrack (pool : List Track) (r : Option Track) (err : String) : List Track × Out :=
+  match r with
+  | some r => (pool ++ [r], .done)
+  | none => (pool, .error err)
+
+/-- an in-place operation on the track at position `k`: the track afterwards (also when the operation raised
+half-way), what it returned -/
+def inPlace (pool : List Track) (k : Nat) (r : Track) (out : Out) : List Track × Out := (setAt pool k r, out)
+
+def countOut : Option Nat → Out
+  | some c => .count c
+  | none => .error "index"
+
 /-- the pool after the operation, and what the operation returned -/
-def applyOp (pool : List Track) : Op → List Track × Out
+def applyOp (pool : List Track) (op : Op) : List Track × Out :=
+  match op with
   | .extract k a b =>
     match pool[k]? with
     | none => (pool, .noTrack)
-    | some tr => match extract tr a b with
-      | some r => (pool ++ [r], .done)
-      | none => (pool, .error "index")
+    | some tr => newTrack pool (extract tr a b) "index"
   | .span k t1 t2 =>
     match pool[k]? with
     | none => (pool, .noTrack)
-    | some tr => (pool ++ [extractSpanTime tr t1 t2], .done)
+    | some tr => newTrack pool (some (extractSpanTime tr t1 t2)) "index"
   | .spanTrack k m =>
     match pool[k]?, pool[m]? with
-    | some tr, some other => match extractSpanTrack tr other with
-      | some r => (pool ++ [r], .done)
-      | none => (pool, .error "index")
+    | some tr, some other => newTrack pool (extractSpanTrack tr other) "index"
     | _, _ => (pool, .noTrack)
   | .add k m =>
     match pool[k]?, pool[m]? with
-    | some t1, some t2 => (pool ++ [concat t1 t2], .done)
+    | some t1, some t2 => newTrack pool (some (concat t1 t2)) "index"
     | _, _ => (pool, .noTrack)
   | .step k n =>
     match pool[k]? with
     | none => (pool, .noTrack)
-    | some tr => match decimateStep tr n with
-      | some r => (pool ++ [r], .done)
-      | none => (pool, .error "value")
+    | some tr => newTrack pool (decimateStep tr n) "value"
   | .pattern k pat =>
     match pool[k]? with
     | none => (pool, .noTrack)
-    | some tr => match decimatePattern tr pat with
-      | some r => (pool ++ [r], .done)
-      | none => (pool, .error "zerodiv")
+    | some tr => newTrack pool (decimatePattern tr pat) "zerodiv"
   | .gt k n =>
     match pool[k]? with
     | none => (pool, .noTrack)
-    | some tr => (pool ++ [dropFirst tr n], .done)
+    | some tr => newTrack pool (some (dropFirst tr n)) "index"
   | .lt k n =>
     match pool[k]? with
     | none => (pool, .noTrack)
-    | some tr => (pool ++ [dropLast tr n], .done)
+    | some tr => newTrack pool (some (dropLast tr n)) "index"
   | .slice k a b c =>
     match pool[k]? with
     | none => (pool, .noTrack)
-    | some tr => match getitemSlice tr a b c with
-      | some r => (pool ++ [r], .done)
-      | none => (pool, .error "value")
+    | some tr => newTrack pool (getitemSlice tr a b c) "value"
   | .sort k =>
     match pool[k]? with
     | none => (pool, .noTrack)
-    | some tr => match sortByTime tr with
-      | some r => (setAt pool k r, .done)
+    | some tr =>
+      match sortByTime tr with
+      | some r => inPlace pool k r .done
       | none => (pool, .error "index")
   | .insert k tag time vals =>
     match pool[k]? with
     | none => (pool, .noTrack)
-    | some tr => match mkObs tr tag time vals with
+    | some tr =>
+      match mkObs tr tag time vals with
       | none => (pool, .noTrack)
-      | some o => match insertChrono tr o with
-        | some r => (setAt pool k r, .done)
+      | some o =>
+        match insertChrono tr o with
+        | some r => inPlace pool k r .done
         | none => (pool, .error "index")
   | .insertAt k i tag time vals =>
     match pool[k]? with
     | none => (pool, .noTrack)
-    | some tr => match mkObs tr tag time vals with
+    | some tr =>
+      match mkObs tr tag time vals with
       | none => (pool, .noTrack)
-      | some o => (setAt pool k (insertAt tr o i), .done)
+      | some o => inPlace pool k (insertAt tr o i) .done
   | .addObs k tag time vals =>
     match pool[k]? with
     | none => (pool, .noTrack)
-    | some tr => match mkObs tr tag time vals with
+    | some tr =>
+      match mkObs tr tag time vals with
       | none => (pool, .noTrack)
-      | some o => (setAt pool k (addObs tr o), .done)
+      | some o => inPlace pool k (addObs tr o) .done
   | .remove k idx =>
     match pool[k]? with
     | none => (pool, .noTrack)
-    | some tr =>
-      let (l, r) := removeByIdx tr.pts idx
-      (setAt pool k ⟨l, tr.table⟩, match r with | some c => .count c | none => .error "index")
+    | some tr => inPlace pool k ⟨(removeByIdx tr.pts idx).1, tr.table⟩ (countOut (removeByIdx tr.pts idx).2)
   | .removeObs k i =>
     match pool[k]? with
     | none => (pool, .noTrack)
-    | some tr =>
-      let (l, r) := removeObs tr.pts i
-      (setAt pool k ⟨l, tr.table⟩, match r with | some c => .count c | none => .error "index")
+    | some tr => inPlace pool k ⟨(removeObs tr.pts i).1, tr.table⟩ (countOut (removeObs tr.pts i).2)
   | .removeFirst k =>
     match pool[k]? with
     | none => (pool, .noTrack)
-    | some tr =>
-      let (l, r) := removeFirst tr.pts
-      (setAt pool k ⟨l, tr.table⟩, match r with | some c => .count c | none => .error "index")
+    | some tr => inPlace pool k ⟨(removeFirst tr.pts).1, tr.table⟩ (countOut (removeFirst tr.pts).2)
   | .removeLast k =>
     match pool[k]? with
     | none => (pool, .noTrack)
-    | some tr =>
-      let (l, r) := removeLast tr.pts
-      (setAt pool k ⟨l, tr.table⟩, match r with | some c => .count c | none => .error "index")
+    | some tr => inPlace pool k ⟨(removeLast tr.pts).1, tr.table⟩ (countOut (removeLast tr.pts).2)
   | .pop k i =>
     match pool[k]? with
     | none => (pool, .noTrack)
     | some tr =>
-      let (l, r) := popObs tr.pts i
-      (setAt pool k ⟨l, tr.table⟩, match r with | some o => .obs o.tag | none => .error "index")
+      inPlace pool k ⟨(popObs tr.pts i).1, tr.table⟩
+        (match (popObs tr.pts i).2 with | some o => .obs o.tag | none => .error "index")
   | .get k i =>
     match pool[k]? with
     | none => (pool, .noTrack)
@@ -348,14 +355,16 @@ def applyOp (pool : List Track) : Op → List Track × Out
   | .create k nm vals =>
     match pool[k]? with
     | none => (pool, .noTrack)
-    | some tr => match createAF tr nm vals with
-      | some r => (setAt pool k r, .done)
+    | some tr =>
+      match createAF tr nm vals with
+      | some r => inPlace pool k r .done
       | none => (pool, .error "AnalyticalFeatureError")
   | .delete k nm =>
     match pool[k]? with
     | none => (pool, .noTrack)
-    | some tr => match removeAF tr nm with
-      | some r => (setAt pool k r, .done)
+    | some tr =>
+      match removeAF tr nm with
+      | some r => inPlace pool k r .done
       | none => (pool, .error "AnalyticalFeatureError")
 
 /-- the operations in sequence: the pool after each of them and what each returned -/
